@@ -607,6 +607,11 @@ theorem only_exchange_code_bypasses_the_gate :
        "Transport._parse_global_request", "Transport._parse_channel_open",
        "ServiceRequestingTransport.ensure_session"] := by decide
 
+/-- Every KEXINIT this side sends — from the run loop, from `renegotiate_keys`, or from `_negotiate_keys` answering the
+peer's — is sent by `_send_kex_init`, which raises `in_kex` before it writes the packet (read from the AST every run).
+So while an exchange is open the run loop's `need_rekey() and not in_kex` test cannot send a second KEXINIT into it. -/
+theorem every_kexinit_marks_the_exchange_open : Generated.C11.kexInitMarksExchangeOpen = true := by decide
+
 end Gate
 
 end PV.Props.C11
